@@ -11,7 +11,7 @@ from ..gen import defs
 from ..impl import same
 from ..refmodel import codec
 from ..refmodel.codec import decode_with_mask
-from ..refmodel.types import CHAR, INTS, Cfg, RefReject, TArr, TEnum, TField, TStruct, layout, render
+from ..refmodel.types import CHAR, INTS, VOID, Cfg, RefReject, TArr, TEnum, TField, TStruct, layout, render
 from ..runner import JobResult, Violation
 from . import _conf
 
@@ -40,7 +40,7 @@ STORAGE = {
     "E16b": (E16b, (4, 12)),
     "F16b": (F16b, (4, 12)),
 }
-CONTEXTS = ("none", "u8-before", "u32-after", "u8-between", "dyn-before", "struct-before", "struct-after", "dyn-between")
+CONTEXTS = ("none", "u8-before", "u32-after", "u8-between", "dyn-before", "struct-before", "struct-after", "dyn-between", "void-between", "zero-array-between")
 
 
 def sequences(tier):
@@ -69,7 +69,7 @@ def sequences(tier):
 
 def jobs(tier):
     seqs = list(sequences(tier))
-    ctxs = CONTEXTS if tier == "thorough" else ("none", "u8-before", "u32-after", "dyn-between", "struct-after")
+    ctxs = CONTEXTS if tier == "thorough" else ("none", "u8-before", "u32-after", "dyn-between", "struct-after", "void-between")
     return [(tier, c, ctxs) for c in defs.chunks(seqs, 12 if tier == "quick" else 30)]
 
 
@@ -85,6 +85,11 @@ def build(seq, context):
         fs = bits + [TField("t", INTS["uint32"])]
     elif context == "u8-between":
         fs = bits[:1] + [TField("m", INTS["uint8"])] + bits[1:] if len(bits) > 1 else [TField("h", INTS["uint8"])] + bits + [TField("t", INTS["uint8"])]
+    elif context == "void-between":
+        # a member that occupies no bytes still ends the storage unit
+        fs = bits[:1] + [TField("vd", VOID)] + bits[1:] + [TField("t", INTS["uint8"])] if len(bits) > 1 else bits + [TField("vd", VOID), TField("t", INTS["uint8"])]
+    elif context == "zero-array-between":
+        fs = bits[:1] + [TField("z", TArr(INTS["uint16"], 0))] + bits[1:] + [TField("t", INTS["uint8"])] if len(bits) > 1 else bits + [TField("z", TArr(INTS["uint16"], 0)), TField("t", INTS["uint8"])]
     elif context == "dyn-before":
         fs = dyn + bits + [TField("t", INTS["uint16"])]
     elif context == "dyn-between":
@@ -225,6 +230,10 @@ def check_case(seq, context, endian, align, res: JobResult, tier="quick"):
                 vals["n0"] = 2
             elif f.name == "d":
                 vals["d"] = b"xy"
+            elif f.name == "vd":
+                vals["vd"] = None
+            elif f.name == "z":
+                vals["z"] = []
             elif f.name in ("h", "m", "t"):
                 vals[f.name] = 0x5A if f.type.size == 1 else 0x0102 if f.type.size == 2 else 0x01020304
             elif f.name == "s":
@@ -291,7 +300,7 @@ def run(job) -> JobResult:
 
     for seq in chunk:
         for context in ctxs:
-            if context in ("u8-between", "dyn-between") and len(seq) < 2:
+            if context in ("u8-between", "dyn-between", "void-between", "zero-array-between") and len(seq) < 2:
                 continue
             for endian in "<>":
                 for align in (False, True):
